@@ -200,7 +200,12 @@ func (s *SetA) object() *apps.StatefulSet {
 		set.Spec.Selector = nil
 	}
 	for _, c := range s.Claims {
-		set.Spec.VolumeClaimTemplates = append(set.Spec.VolumeClaimTemplates, claimTemplate(c))
+		ct := claimTemplate(c)
+		if s.TmplMeta == "junk" {
+			// a claim template pasted from a stored claim: its metadata names another namespace
+			ct.ObjectMeta.Namespace = "storage"
+		}
+		set.Spec.VolumeClaimTemplates = append(set.Spec.VolumeClaimTemplates, ct)
 	}
 	if s.Deleting {
 		t := metav1.NewTime(epoch.Add(time.Hour))
